@@ -32,8 +32,8 @@ FAMILIES = {
         "coq_modules": ["Json", "Crc", "Hlc", "Kv", "Store", "Trace", "Lin"],
         "in_type": "unit", "obs_type": "list lkey",
         "corr": "chk_lin", "chk": "chk_lin", "model": "(fun _ : unit => tt)", "chk_explain": "lin_explain",
-        "n": {"quick": 24, "thorough": 400},
-        "shard": 2, "procs": 4,
+        "n": {"quick": 40, "thorough": 600},
+        "shard": 3, "procs": 4,
     },
     "sched": {
         "family": "sched",
@@ -66,6 +66,14 @@ FAMILIES = {
         "corr": "crash_corr_ok", "chk": "chk_crash", "model": "crash_model",
         "n": {"quick": 48, "thorough": 1200},
         "shard": 4, "procs": 8,
+    },
+    "shut": {
+        "family": "shut",
+        "coq_modules": ["Locks"],
+        "in_type": "shut_case", "obs_type": "outcome",
+        "corr": "shut_corr_ok", "chk": "shut_chk_excused", "strict_chk": "shut_chk_strict", "model": "shut_model",
+        "n": {"quick": 60, "thorough": 200},
+        "shard": 30, "procs": 6,
     },
     "ttl": {
         "family": "ttl",
@@ -150,6 +158,12 @@ PROPS = {
         "level_note": "Observation after each step waits for the feed goroutines to settle (up to 400 ms): a termination slower than that would be reported as missing. Concurrent writers during termination are covered by the sched / ckpt families (C15). Trusted: Coq kernel + vm_compute, Go harness.",
         "assumptions": ["each lifecycle call is one atomic step (bucket.mutex / cluster.lock)", "a closed done channel means the feed goroutine has left its loop"],
     },
+    "C20": {
+        "families": [{"family": "shut"}],
+        "level_text": "Partial. Proved (Locks.v) for every number of threads and every schedule: threads that acquire locks in strictly increasing rank and release what they took never reach a stuck configuration and leave no lock held (C20_rank_discipline_no_deadlock, C20_no_lock_left); rosmar's code paths - write, read, feed start, CloseAndDelete, last Close, DropDataStore, OpenBucket, view update, transcribed by hand as lock sequences over bucket.mutex, cluster.lock, expiryManager.mutex, Collection.mutex, queue locks and the HLC mutex - follow that discipline (checked by computation), hence cannot deadlock among themselves (C20_paths_no_deadlock); the expiry timer's callback does not, and a stuck configuration against CloseAndDelete is exhibited (C20_timer_deadlock_refuted = KF-C20-deadlock). On the code: 132 scenarios, each in a child process with a watchdog - a racer (writer, sub-document writer, view query, feed start, another Close, the timer's callback) parked at a hook point (transaction begin / pre-commit / committed, before setLastCas, before posting, postEvent's snapshot, the subdoc window, feed.preregister, expiry.fire, expiry.window, close.unregistered) against CloseAndDelete, the last Close, a non-last Close and DropDataStore, in-memory and on-disk; outcome = ok / panic / deadlock / leaked feed or timer goroutine / another bucket unusable / raced call never returned, compared with the expected outcome (ok everywhere except the three known windows).",
+        "level_note": "The lock table is transcribed by hand and is not tied to the source mechanically; the scenarios are what watches it. 'Leaked goroutine' is judged from runtime.Stack and the feed counter 150 ms after the store shut down; the terminator-watcher goroutine of a feed whose client never closes its terminator is not counted. Trusted: Coq kernel + vm_compute, Go harness.",
+        "assumptions": ["the lock acquisition table of Locks.v matches the Go code (hand-transcribed)", "a watchdog of 5 s distinguishes a deadlock from slowness"],
+    },
     "C17": _kv("C17", "Full proof on the model: every successful mutation through any entry point raises the key's revision number by exactly one (1 on creation or re-creation after purge), failed calls leave it, and live events carry the stored number (C17_holds, all histories)."),
     "C03": {
         "families": [{"family": "lin"}],
@@ -158,7 +172,7 @@ PROPS = {
         "assumptions": ["each single-transaction call is atomic (bucket.mutex + SQLite transaction)", "reads outside the mutex see a committed snapshot", "the live feed delivers every posted event (checked: one event per acknowledged mutation)"],
     },
     "C04": {
-        "families": [{"family": "c04"}],
+        "families": [{"family": "c04"}, {"family": "kv", "chk": "kv_chk_C04", "corr": "kv_corr_C04", "model_chk": True}, {"family": "lin"}],
         "level_text": "Full proof on the model: for every list of clock readings, buckets, failed calls, closes, restarts and reopens the issued CAS values are strictly increasing process-wide and per bucket across restarts (C04_holds, by invariant over all operation lists; uint64 no-wrap side condition proved). The model is tied to hlc.go/collection.go by exact comparison of every CAS the implementation stamps under scripted clocks.",
         "level_note": "Assumes the HLC mutex and bucket.mutex make each draw atomic, and SQLite commits bucket.lastCas atomically with the write; restart simulated in-process in this check (real kills under C10). Trusted: Coq kernel + vm_compute, the Go harness and emitter.",
         "assumptions": [
